@@ -278,6 +278,15 @@ func (c *Fn) builtLen(call *ssa.Call) []string {
 	if !ok || ssau.CallName(lc) != "builtin.len" {
 		return nil
 	}
+	// made with len(<slice parameter>): the length of the argument itself
+	if sp, isP := lc.Common().Args[0].(*ssa.Parameter); isP {
+		for i, q := range g.Params {
+			if q == sp && i < len(call.Common().Args) {
+				return c.LenExprs(call.Common().Args[i], 1)
+			}
+		}
+		return nil
+	}
 	ld, ok := lc.Common().Args[0].(*ssa.UnOp)
 	if !ok || ld.Op != token.MUL {
 		return nil
